@@ -398,7 +398,8 @@ application_call:
 		{
 			slout_error << e.what() << " - inbound message rejected";
 			handle_outbound_reject(seqnum, msg, e.what());
-			++_next_receive_seq;
+			if (seqnum == _next_receive_seq) // a rejected message consumes its number only if it was the expected one
+				++_next_receive_seq;
 			update_persist_seqnums();
 			if (_plogger && _plogger->has_flag(Logger::inbound))
 				plog(from, Logger::Info, 1);
